@@ -6,6 +6,7 @@
 // signal, the one the predecessor produced (same value / same error id / stopped), nothing is signalled twice,
 // and every consumer completes (an all-blocked/spinning state = a lost completion).
 #include "vt.hpp"
+#include "quarantine.hpp"    // poisoning quarantine allocator: use-after-free oracle for the whole process
 
 #include <pika/execution.hpp>
 
@@ -176,6 +177,7 @@ static Outcome run(tape_t const& tape)
     Tape t(tape);
     Case c = decode(t);
     vt::install_vt_hook();
+    vf::quarantine::enabled().store(true);
     vt::Sched s;
     std::size_t nl = c.leaves.size(), nc = c.cons.size();
     std::vector<LeafSlot> slots(nl);
@@ -322,6 +324,10 @@ static Outcome run(tape_t const& tape)
     };
     s.run(t);
     keep.clear();
+    {
+        std::string q = vf::quarantine::check();
+        if (!q.empty()) set_fail("write_after_free", q);
+    }
     for (std::size_t k = 0; k < nc && fail.empty(); ++k)
     {
         if (c.cons[k].drop_unstarted) continue;
